@@ -5,4 +5,6 @@ import "github.com/magisterquis/curlrevshell/verifharness/props/c08"
 func init() {
 	registry["C08"] = prop{level: c08.Level, run: c08.Run, racePkgs: []string{"lib/sstls"}}
 	children["c08perm"] = c08.ChildPerm
+	children["c08die"] = c08.ChildDie
+	children["c08limit"] = c08.ChildLimit
 }
